@@ -279,7 +279,7 @@ def independence_under_rule_options(ctx, reg):
                                   "case": "validation-range"})
         for h in items:
             others = [c for c in sorted(reg) if c != h["rule"]]
-            places = [("own", h["rule"])] + [("sibling", rng.choice(others)) for _ in range(2 if quick else 3)] + [("generic", None)]
+            places = [("own", h["rule"])] + [("sibling", rng.choice(others)) for _ in range(2)] + [("generic", None)]
             for where, acode in places:
                 configs = copy.deepcopy(h["configs"]) if isinstance(h["configs"], dict) else {}
                 configs.setdefault("core", {})
